@@ -6,6 +6,7 @@
 //
 // usage: harness <scratch-dir>   (stdin → stdout)
 
+#include <unistd.h>
 #include <cmath>
 #include <cstdint>
 #include <cstdio>
@@ -1013,9 +1014,15 @@ static void op_rng(Cur &c, Out &o)
 
 // ------------------------------------------------------------------------------ readers / writers
 
+// scratch files carry the process id: several checks run harness processes on one build directory at the same time
+static std::string scratch_path(const std::string &name)
+{
+    return g_scratch + "/" + std::to_string((long)getpid()) + "_" + name;
+}
+
 static std::string scratch_file(const std::string &name, const std::string &content)
 {
-    std::string p = g_scratch + "/" + name;
+    std::string p = scratch_path(name);
     std::ofstream f(p, std::ios::binary);
     f << content;
     f.close();
@@ -1128,7 +1135,7 @@ static void op_waff(Cur &c, Out &o)
     size_t K = c.nat(), L = c.nat(), r = c.nat();
     double maxL2 = c.flt();
     auto aff = c.flts();
-    std::string p = g_scratch + "/w_out.dat";
+    std::string p = scratch_path("w_out.dat");
     write_affinity_file(p, aff, fake_report(r, maxL2), K, L);
     dump_file_tokens(p, o, false);
 }
@@ -1142,7 +1149,7 @@ static void op_wmem(Cur &c, Out &o)
         labels.push_back(c.nat());
     auto d = c.flts();
     Matrix<double> m(N, K, d);
-    std::string p = g_scratch + "/u_out.dat";
+    std::string p = scratch_path("u_out.dat");
     write_membership_file(p, labels, m, fake_report(r, maxL2));
     dump_file_tokens(p, o, true);
 }
@@ -1166,7 +1173,7 @@ static void op_winfo(Cur &c, Out &o)
     }
     for (size_t i = 0; i < n; i++)
         rep.vec_term_reason.push_back(reasons[i].c_str());
-    std::string p = g_scratch + "/run_info.dat";
+    std::string p = scratch_path("run_info.dat");
     write_info_file(p, rep);
     std::ifstream in(p);
     std::string line;
@@ -1265,6 +1272,8 @@ int main(int argc, char **argv)
         std::fprintf(proto, "%s%s\n", id.c_str(), s.c_str());
         std::fflush(proto);
     }
+    for (const char *n : {"adj.dat", "aff.dat", "w_out.dat", "u_out.dat", "run_info.dat"})
+        std::remove(scratch_path(n).c_str());
     return 0;
 }
 #endif // HARNESS_PART == 0
